@@ -103,6 +103,6 @@ CHolds(c) == CASE c = "C10_Reopenable" -> Mon_Reopen [] c = "C10_PreOrPost" -> M
 CStep == /\ CNext
          /\ LET nb == {c \in CClauses : ~(CHolds(c))'} IN
               /\ bad' = bad \cup {<<l, c>> : c \in nb}
-              /\ (nb = {} \/ Cardinality(bad) > 40 \/ PrintT(<<"VERIF_BAD", l, nb>>))
+              /\ (nb = {} \/ Cardinality(bad) > 2000 \/ PrintT(<<"VERIF_BAD", l, nb>>))
 CSpec == TInit /\ [][CStep]_tvars
 =============================================================================
